@@ -115,7 +115,7 @@ CORPUS = [
     ("K 9001 o;outer;int;vN;gt;R;+,va,vb;predec;-;- " + I_SIMPLE, [V(N=9, a=2, b=3), V(N=5, a=1, b=1), V(N=2, a=2, b=3)]),
     # F23: incrementing loop, `N | 1` is the left operand
     ("K 9002 o;outer;int;c1;lt;R;P,|,vN,c1;preinc;-;- " + I_SIMPLE, [V(N=8), V(N=5)]),
-    ("K 9003 o;outer;int;c0;le;L;<<,va,c1;postinc;-;- " + I_SIMPLE, [V(a=3), V(a=0)]),
+    ("K 9003 o;outer;int;c0;ge;L;<<,va,c1;postinc;-;- " + I_SIMPLE, [V(a=3), V(a=0)]),
     # F24: empty run-time range with a step: negative count
     ("K 9004 o;outer;int;c0;lt;R;vN;addeq;c3;- " + I_SIMPLE, [V(N=-5), V(N=-9), V(N=-1), V(N=0), V(N=7)]),
     ("K 9005 o;outer;int;c0;lt;R;c4;preinc;-;- i;inner;int;vN;gt;R;c3;subeq;vs;-", [V(N=-4, s=2), V(N=3, s=2), V(N=8, s=2)]),
@@ -152,7 +152,7 @@ def main(argv):
                "distinct by SHA-1 of header text + values")
     ck.assumptions = ["operand values stay far from int overflow", "steps are positive at run time (else the sequential loop does not terminate)",
                       "comparison and update direction agree (else: finding F70)"]
-    ck.translate([])
+    ck.translate(["gen_loops"])
     ck.prove("C17")
     hb = ck.harness("h_loops")
     db = ck.driver("drv_loop")
